@@ -418,3 +418,90 @@ Proof.
       * rewrite !app_length, B. lia.
 Qed.
 End Keys.
+
+(* ---------- no entry of the result has probability zero ---------- *)
+Lemma jointp_pos_idx probs : Forall nonneg probs ->
+  forall ids, 0 < jointp probs ids -> length ids = length probs -> idx_ok probs ids.
+Proof.
+  induction probs as [|v r IH]; intros N [|j c] P L; simpl in *; try discriminate; auto.
+  inversion N as [|? ? Nv Nr]; subst.
+  destruct (Nat.lt_ge_cases j (length v)) as [H|H].
+  - split; auto. apply IH; auto; try lia.
+    destruct (Qlt_le_dec 0 (jointp r c)); auto. exfalso.
+    pose proof (nth_nonneg v j Nv). nra.
+  - rewrite nth_overflow in P by lia. lra.
+Qed.
+
+Lemma insert_samples_keys ssw : forall s ret r k v,
+  insert_samples ret ssw s = Some r -> dget r k = Some v -> dget ret k = Some v \/ exists n, In (k, n) s.
+Proof.
+  induction s as [|[k' c] s IH]; intros ret r k v H G; simpl in H.
+  - inversion H; subst. now left.
+  - destruct (dmem ret k'); [discriminate|].
+    destruct (IH _ _ _ _ H G) as [G'|[n I]]; [|right; exists n; now right].
+    rewrite dget_dset in G'. destruct (key_eqb k' k) eqn:E.
+    + apply key_eqb_eq in E; subst. right. exists c. now left.
+    + now left.
+Qed.
+
+Lemma dfs_ret_keys probs perms q ret cond wts0 k v :
+  sorting_perms_b probs perms = true -> 1 <= q ->
+  dfs_acc probs perms q = (ret, cond, wts0) -> dget ret k = Some v ->
+  snd v = EXACT /\ fst v == jointp probs k * q /\ 1 / q <= jointp probs k /\
+  idx_ok probs k /\ length k = length probs.
+Proof.
+  intros S Hq Eacc G. destruct (thr_facts q Hq) as [T0 T1]. unfold dfs_acc in Eacc.
+  destruct (Qle_bool (1 / q) (qprod (map qmax probs))).
+  - assert (ret = fold_left (ret_step q) (gen_unsorted probs perms (1 / q)) []) as ->.
+    { transitivity (fst (fst (fold_left (absorb (length probs) q) (gen_unsorted probs perms (1 / q))
+                                  (([] : wdict), ([] : list (key * list Q)), 1)))).
+      - apply (f_equal (fun t => fst (fst t))) in Eacc. symmetry. exact Eacc.
+      - apply absorb_ret. }
+    rewrite ret_get in G. destruct (last_full _ k) as [p|] eqn:El; [|discriminate].
+    inversion G; subst. simpl.
+    apply last_full_In in El. apply gen_unsorted_full_inv in El. destruct El as [c [-> Hc]].
+    destruct (spec_full_value probs perms (1 / q) c p S T1 Hc) as [Vp [Tp [O L]]].
+    repeat split; auto. { now rewrite Vp. } { now rewrite <- Vp. }
+  - inversion Eacc; subst. discriminate.
+Qed.
+
+Theorem no_zero probs perms N tape r ids w t :
+  Forall nonneg probs -> sorting_perms_b probs perms = true ->
+  gen_weights probs perms N tape = Some (Ok r) -> dget r ids = Some (w, t) ->
+  0 < jointp probs ids /\ in_range probs ids.
+Proof.
+  intros Nn S G D. pose proof atol_pos as Ap.
+  assert (forall m, dget (all_exact probs m) ids = Some (w, t) -> 0 < jointp probs ids /\ in_range probs ids) as AE.
+  { intros m H. destruct (proj2 (all_exact_spec probs m ids) w t H) as [O [L [B _]]].
+    split; [lra|]. apply in_range_idx_ok. auto. }
+  assert (forall k, 0 < jointp probs k -> length k = length probs -> 0 < jointp probs k /\ in_range probs k) as KG.
+  { intros k P L. split; auto. apply in_range_idx_ok. split; auto. now apply jointp_pos_idx. }
+  destruct N as [q| | |].
+  - apply gen_weights_fin_inv in G. destruct G as [Hq F]. destruct (thr_facts q Hq) as [T0 _].
+    assert (forall ret cond wts0, dfs_acc probs perms q = (ret, cond, wts0) -> forall v, dget ret ids = Some v ->
+              0 < jointp probs ids /\ in_range probs ids) as RK.
+    { intros ret cond wts0 Eacc v Gv.
+      destruct (dfs_ret_keys probs perms q ret cond wts0 ids v S Hq Eacc Gv) as [_ [_ [T [O L]]]].
+      split; [lra|]. apply in_range_idx_ok. auto. }
+    destruct F as [mins Em Ae ->|mins ret cond wts0 Em Na Eacc Hs ->|mins ret cond wts0 rs Em Na Eacc Hs Cn Lw Dn ->
+                  |mins ret cond wts0 s t' lg Em Na Eacc Hs Cc Pp Is].
+    + eapply AE; eauto.
+    + eapply RK; eauto.
+    + rewrite dget_dset in D. destruct (key_eqb rs ids) eqn:E.
+      * apply key_eqb_eq in E; subst rs.
+        pose proof (dfs_acc_cond_sound probs perms q ret cond wts0 Nn S Eacc) as Cs.
+        destruct (leftover_pos probs cond Nn Cs probs [] [] ids eq_refl eq_refl) as [P L];
+          [simpl; lra|exact Lw|]. apply KG; auto.
+      * eapply RK; eauto.
+    + destruct (insert_samples_keys _ _ _ _ _ _ Is D) as [Gr|[n I]].
+      * eapply RK; eauto.
+      * pose proof (dfs_acc_cond_sound probs perms q ret cond wts0 Nn S Eacc) as Cs.
+        assert (0 < jointp [] []) as P0 by (simpl; lra).
+        destruct (populate_keys probs cond Nn Cs probs [] [] _ _ _ _ _ eq_refl eq_refl P0 Pp ids n I) as [P L].
+        apply KG; auto.
+  - unfold gen_weights, gen_core in G.
+    destruct (all_some (map min_filter_nonzero probs)) as [mins|]; [|discriminate].
+    destruct (Qle_bool 0 (qprod mins)); [|discriminate]. inversion G; subst. eapply AE; eauto.
+  - discriminate.
+  - discriminate.
+Qed.
